@@ -79,7 +79,7 @@ let run (path : String.t) =
       incr i; incr cases;
       Hashtbl.reset intern_tbl;
       let evs = ref [] and raw = ref [] in
-      let special = ref None in
+      let special = ref None and late = ref None in
       while !i < n && not (String.length lines.(!i) >= 5 && String.sub lines.(!i) 0 5 = "case ") do
         let l = lines.(!i) in
         (match event_of l with
@@ -87,6 +87,7 @@ let run (path : String.t) =
          | None ->
            (match split_ws l with
             | "pe" :: ("panic" | "spin") :: _ -> if !special = None then special := Some l
+            | ["late"; id] -> late := Some (n_of_string id)
             | _ -> ()));
         incr i
       done;
@@ -127,7 +128,13 @@ let run (path : String.t) =
         if fin = "quiesce" && not was_closed && not (obs_requests_flushed evs) then (add "c02"; add "c09"; why := "requests_flushed" :: !why);
         if fin = "quiesce" && not was_closed && not (obs_rstreams_polled_to_pending evs) then (add "c09"; add "c11"; add "c02"; why := "stream_left_ready" :: !why);
         if fin = "quiesce" && not was_closed && not (obs_no_request_stranded evs) then (add "c02"; add "c08"; add "c11"; why := "request_stranded" :: !why);
-        if fin = "close" && not (rcompleted evs) then (add "c16"; add "c09"; why := "not_completed" :: !why)
+        if fin = "close" && not (rcompleted evs) then (add "c16"; add "c09"; why := "not_completed" :: !why);
+        (* after every stream (the bound replier's too) has ended and the router went quiet, the next replier to register is bound *)
+        (match !late with
+         | Some l when fin = "quiesce" && not was_closed ->
+           if List.exists (function VSink (l', OSend (FErr _), _) -> l' = l | _ -> false) evs
+           then (add "c10"; add "c09"; why := "replier_registering_after_the_bound_one_left_was_refused" :: !why)
+         | _ -> ())
       end;
       let g = st.rgh in
       rejected_repliers := !rejected_repliers + List.length g.h_rejected;
